@@ -21,6 +21,8 @@ DOCS = [
     ("unfinished-trimmed", "PROGRAM pt\nVAR x : INT; END_VAR\nx := 1;"),
     ("valid-with-blank-lines", "PROGRAM pv\nVAR x : INT; END_VAR\nx := 1;\nEND_PROGRAM\n\n\t \n"),
     ("valid-trimmed", "PROGRAM pv\nVAR x : INT; END_VAR\nx := 1;\nEND_PROGRAM"),
+    # two places that are no token: `check` reports the first (the parse stops there); so must the server
+    ("lexical-errors-two", "PROGRAM pl2\nVAR x : INT; END_VAR\nx := 1 ? 2;\nx := 3 ! 4 ?? 5;\nEND_PROGRAM\n"),
 ]
 
 
